@@ -388,12 +388,12 @@ pub struct SpecialPool {
     pub trials: u64,
 }
 
-fn special_trial(i: u64) -> Option<(Pos, u8, bool)> {
+fn special_trial(i: u64, three: bool) -> Option<(Pos, u8, bool)> {
     use crate::oracle::rules::{Col, Kind};
     let mut x = i.wrapping_mul(0x9E3779B97F4A7C15) ^ 0x5eed_c06;
     let mut r = |n: usize| (crate::runner::splitmix(&mut x) % n as u64) as usize;
     // castling mates are common, the other two kinds are rare: 5 / 2 / 1 out of 8 trials
-    let kind = [0u8, 0, 0, 0, 0, 1, 1, 2][(i % 8) as usize];
+    let kind = if three { [0u8, 1, 1, 1][(i % 4) as usize] } else { [0u8, 0, 0, 0, 0, 1, 1, 2][(i % 8) as usize] };
     let mut p = Pos::empty(Col::W);
     // the defender's king on the rim (mates in one are found there)
     let rim: Vec<usize> = (0..64).filter(|s| s / 8 == 0 || s / 8 == 7 || s % 8 == 0 || s % 8 == 7).collect();
@@ -462,19 +462,57 @@ fn special_trial(i: u64) -> Option<(Pos, u8, bool)> {
     }
     let legal = p.legal();
     let mating: Vec<&crate::oracle::rules::Mv> = legal.iter().filter(|(_, n)| !n.has_legal_move() && n.in_check(n.stm)).map(|x| &x.0).collect();
+    if three {
+        // mate in exactly three plies, every key move special
+        if !mating.is_empty() || !special3_ok(&p, kind) {
+            return None;
+        }
+        let in_check = p.in_check(Col::W);
+        return Some((p, kind, in_check));
+    }
     if mating.is_empty() {
         return None;
     }
-    let special = |m: &crate::oracle::rules::Mv| match kind {
-        0 => m.ep,
-        1 => matches!(m.promo, Some(Kind::N) | Some(Kind::B) | Some(Kind::R)),
-        _ => m.castle.is_some(),
-    };
-    if !mating.iter().all(|m| special(m)) {
+    if !mating.iter().all(|m| is_special(m, kind)) {
         return None;
     }
     let in_check = p.in_check(Col::W);
     Some((p, kind, in_check))
+}
+
+fn is_special(m: &crate::oracle::rules::Mv, kind: u8) -> bool {
+    use crate::oracle::rules::Kind;
+    match kind {
+        0 => m.ep,
+        1 => matches!(m.promo, Some(Kind::N) | Some(Kind::B) | Some(Kind::R)),
+        _ => m.castle.is_some(),
+    }
+}
+
+/// No mate in one; at least one special move after which the opponent is mated within two plies;
+/// no other move with that effect (all decided exhaustively).
+fn special3_ok(p: &Pos, kind: u8) -> bool {
+    let legal = p.legal();
+    if legal.iter().any(|(_, n)| !n.has_legal_move() && n.in_check(n.stm)) {
+        return false;
+    }
+    let mut key = false;
+    // the few special moves first: most positions fail here
+    for (m, n) in legal.iter().filter(|x| is_special(&x.0, kind)) {
+        let _ = m;
+        if Solver::new(200_000).lost_within(n, 2) == Some(true) {
+            key = true;
+        }
+    }
+    if !key {
+        return false;
+    }
+    for (_, n) in legal.iter().filter(|x| !is_special(&x.0, kind)) {
+        if Solver::new(200_000).lost_within(n, 2) != Some(false) {
+            return false;
+        }
+    }
+    true
 }
 
 pub fn special_pool(ctx: &Ctx) -> &'static SpecialPool {
@@ -490,7 +528,7 @@ pub fn special_pool(ctx: &Ctx) -> &'static SpecialPool {
                     let mut mine = vec![];
                     let mut i = t;
                     while i < trials {
-                        if let Some((p, k, c)) = special_trial(i) {
+                        if let Some((p, k, c)) = special_trial(i, false) {
                             mine.push((i, p, k, c));
                         }
                         i += threads;
@@ -510,6 +548,143 @@ pub fn special_pool(ctx: &Ctx) -> &'static SpecialPool {
         }
         SpecialPool { list, trials }
     })
+}
+
+/// Mates in exactly three plies whose every key move is an en-passant capture or an
+/// under-promotion, mined like the one-ply pool (a pure function of the trial index).
+pub fn special3_pool(ctx: &Ctx) -> &'static Vec<(Pos, u8)> {
+    static P: OnceLock<Vec<(Pos, u8)>> = OnceLock::new();
+    P.get_or_init(|| {
+        let trials: u64 = 2_400_000;
+        let found: Mutex<Vec<(u64, Pos, u8)>> = Mutex::new(vec![]);
+        let threads = ctx.threads.max(1) as u64;
+        std::thread::scope(|sc| {
+            for t in 0..threads {
+                let found = &found;
+                sc.spawn(move || {
+                    let mut mine = vec![];
+                    let mut i = t;
+                    while i < trials {
+                        if let Some((p, k, _)) = special_trial(i.wrapping_add(0x3333_0000_0000), true) {
+                            mine.push((i, p, k));
+                        }
+                        i += threads;
+                    }
+                    found.lock().unwrap().extend(mine);
+                });
+            }
+        });
+        let mut v = found.into_inner().unwrap();
+        v.sort_by_key(|x| x.0);
+        let mut seen = std::collections::HashSet::new();
+        v.into_iter().filter(|x| seen.insert(x.1.fen4())).map(|x| (x.1, x.2)).collect()
+    })
+}
+
+pub struct SpecialKeyMates3;
+
+impl DynProp for SpecialKeyMates3 {
+    fn name(&self) -> &'static str {
+        "special_key_mates_in_3"
+    }
+    fn run(&self, ctx: &Ctx, cases: u64) {
+        let pool = special3_pool(ctx);
+        ctx.extra("special3_pool", json!({"trials": 2_400_000, "positions": pool.len(), "en_passant": pool.iter().filter(|x| x.1 == 0).count(), "under_promotion": pool.iter().filter(|x| x.1 == 1).count()}));
+        let n = (pool.len() as u64).min(cases);
+        // per position: (mirrored or not) x depth 3..5 x {1 worker, 2 scheduled workers}, plus one run
+        // through the public entry point at depth 3 (it allocates the real 1 GiB memory)
+        // (the public runs come one after the other: 16 of them at once would hold 16 GiB)
+        let public_runs = n.min(if ctx.tier == crate::runner::Tier::Quick { 12 } else { 200 });
+        let seq = std::sync::atomic::AtomicBool::new(false);
+        let one = |i: u64, loc: &mut Local| -> Result<(), (Value, String)> {
+            let (p0, kind) = &pool[(i / 13) as usize];
+            let v = i % 13;
+            if (v == 12) != seq.load(std::sync::atomic::Ordering::Relaxed) {
+                return Ok(());
+            }
+            let (mirrored, depth, mode) = if v == 12 { (false, 3u8, 2u64) } else { (v >= 6, (v % 3) as u8 + 3, (v / 3) % 2) };
+            let pos = if mirrored { p0.mirror() } else { p0.clone() };
+            let seed = crate::runner::h64(&(i, ctx.seed, "s3"));
+            let kname = ["an en-passant capture", "an under-promotion", "castling"][*kind as usize];
+            let case = json!({"fen": pos.fen(), "depth": depth, "seed": seed, "mode": mode});
+            let (last_eval, first, what) = if mode == 2 {
+                // the public entry point: the engine's own worker counts (one below iteration 3)
+                let lines = super::c19::transcript_public(&pos, seed, depth as usize).map_err(|e| (case.clone(), e))?;
+                let best: Vec<&String> = lines.iter().filter(|l| l.starts_with("best ")).collect();
+                let what = format!("Searcher::analyze of '{}' (mate in 3 plies, only by {}; depth {}, seed {})", pos.fen(), kname, depth, seed);
+                let Some(l) = best.last() else { return Err((case, format!("{} reported nothing", what))) };
+                let mut it = l.split(' ');
+                let _ = it.next();
+                let ev: i32 = it.next().and_then(|x| x.parse().ok()).unwrap_or(i32::MIN);
+                (ev, it.next().unwrap_or("").to_string(), what)
+            } else {
+                let workers = if mode == 0 { 1 } else { 2 };
+                let spec = SearchSpec { depth: Some(depth), seed, workers, sched_seed: if workers > 1 { Some(seed ^ 5) } else { None }, cancel_after: None };
+                let (out, _) = search::run(&pos, &spec, search::new_artifact(seed ^ 7, GEOM), usize::MAX);
+                let what = format!("search of '{}' (mate in 3 plies, only by {}; {:?})", pos.fen(), kname, spec);
+                if let Some(pm) = &out.panic {
+                    return Err((case, format!("{} panicked: {}", what, pm)));
+                }
+                for b in out.best.iter() {
+                    search::check_line(&pos, &b.line).map_err(|e| (case.clone(), format!("{}: {}", what, e)))?;
+                }
+                let Some(last) = out.best.last() else { return Err((case, format!("{} reported nothing", what))) };
+                (last.eval, last.line[0].lan(), what)
+            };
+            loc.eval();
+            if last_eval < POS_INF {
+                return Err((case, format!("{}: depth limit {} >= 3 but the final evaluation is {} (first move {})", what, depth, last_eval, first)));
+            }
+            // the first move keeps the mate: the reply position is lost within 2 plies (the key), or
+            // within 6 by the solver (a slower mate the deeper search preferred); otherwise undecided
+            let Some((_, succ)) = pos.legal().into_iter().find(|(m, _)| m.lan() == first) else {
+                return Err((case, format!("{}: first move '{}' is not legal", what, first)));
+            };
+            let kept = Solver::new(400_000).lost_within(&succ, 6);
+            if kept == Some(false) && depth <= 5 {
+                // no mate within 7 plies after that move although the search (depth <= 5, fresh memory) claims one:
+                // only extensions could have seen deeper - counted, not judged
+                loc.class("special3:first_move_not_mating_within_7_plies_undecided");
+            } else {
+                loc.class(if kept == Some(true) { "special3:first_move_proved_to_keep_mate" } else { "special3:first_move_undecided" });
+            }
+            loc.class(["special3:key_en_passant", "special3:key_under_promotion", "special3:key_castling"][*kind as usize]);
+            loc.class(["special3:one_worker", "special3:two_workers_scheduled", "special3:public_entry_point"][mode as usize]);
+            loc.nontrivial(&(pos.fen4(), depth, mode));
+            if i % 53 == 0 {
+                loc.sample(|| json!({"fen": pos.fen(), "key": kname, "depth": depth, "eval": last_eval, "first_move": first, "mode": mode}));
+            }
+            Ok(())
+        };
+        par_range(ctx, "special_key_mates_in_3", n * 13, &one);
+        seq.store(true, std::sync::atomic::Ordering::Relaxed);
+        let mut loc = Local::new();
+        for j in 0..public_runs {
+            if ctx.violations() > 0 {
+                break;
+            }
+            if let Err((case, msg)) = one(j * 13 + 12, &mut loc) {
+                ctx.violation("special_key_mates_in_3", case, msg);
+            }
+        }
+        ctx.merge("special_key_mates_in_3", loc);
+    }
+    fn replay(&self, _: &Ctx, case: &Value) -> Result<(), String> {
+        let pos = Pos::from_fen(case["fen"].as_str().ok_or("no fen")?).ok_or("bad fen")?;
+        let depth = case["depth"].as_u64().unwrap_or(3) as u8;
+        let seed = case["seed"].as_u64().unwrap_or(0);
+        if Solver::new(2_000_000).mates_within(&pos, 3) != Some(true) {
+            return Err("the replay position has no forced mate within 3 plies".into());
+        }
+        let workers = if case["mode"].as_u64() == Some(1) { 2 } else { 1 };
+        let spec = SearchSpec { depth: Some(depth), seed, workers, sched_seed: if workers > 1 { Some(seed ^ 5) } else { None }, cancel_after: None };
+        let (out, _) = search::run(&pos, &spec, search::new_artifact(seed ^ 7, GEOM), usize::MAX);
+        match out.best.last() {
+            Some(b) if b.eval >= POS_INF => Ok(()),
+            Some(b) => Err(format!("search of '{}' ({:?}): mate in 3 plies exists, final evaluation {}", pos.fen(), spec, b.eval)),
+            None => Err(format!("search of '{}' reported nothing", pos.fen())),
+        }
+    }
 }
 
 pub struct SpecialKeyMates;
@@ -732,6 +907,7 @@ pub fn plan(ctx: &Ctx) -> Plan {
             (Box::new(TbSoundness { max_depth: 5 }), t.pick(61, 5)),
             (Box::new(SolverMates), t.pick(30_000, 1_000_000)),
             (Box::new(SpecialKeyMates), t.pick(1_500, 1_000_000)),
+            (Box::new(SpecialKeyMates3), t.pick(400, 1_000_000)),
             (Box::new(Tb4Exact { families: &[(crate::oracle::rules::Kind::R, crate::oracle::rules::Kind::R), (crate::oracle::rules::Kind::Q, crate::oracle::rules::Kind::R), (crate::oracle::rules::Kind::Q, crate::oracle::rules::Kind::N)] }), t.pick(0, 401)),
         ],
         rule: "oracle = exact retrograde tablebases for K v K, KQK, KRK, KBK, KNK, KPK built at start-up from the rules \
